@@ -400,7 +400,7 @@ def _check_concrete_dataset(ds, sem):
             if tn == "Integer":
                 # value-level conformity: an integral number (the pandas dtype - int64 / Int64 / float64 - is C-level, outside)
                 pv = v.item() if hasattr(v, "item") else v
-                ok = not isinstance(pv, (bool, str)) and isinstance(pv, (int, float)) and float(pv) == int(pv)
+                ok = not isinstance(pv, (bool, str)) and (isinstance(pv, int) or (isinstance(pv, float) and pv.is_integer()))
             elif tn == "Number":
                 ok = not isinstance(v, (str, bool)) and (isinstance(v, (int, float)) or hasattr(v, "dtype"))
             elif tn == "Boolean":
